@@ -2,6 +2,7 @@ package c02
 
 import (
 	"fmt"
+	"os"
 	"sort"
 	"strings"
 	"testing"
@@ -444,6 +445,14 @@ func runCase(c Case) (res pbt.Result) {
 		return
 	}
 	arr := et.Model(c.Events, c.OOOMs)
+	if os.Getenv("VERIF_DEBUG") != "" {
+		for _, r := range out.rows {
+			fmt.Printf("DEBUG delivery seq=%d after %d emits: g=%q [%d,%d) wid=%s ids=%v\n", r.seq, r.start, r.g, r.ws, r.we, r.wid, r.ids)
+		}
+		for i, e := range c.Events {
+			fmt.Printf("DEBUG event #%d id=%d ts=%d g=%s garbage=%q late=%v wm=%d\n", i, e.ID, e.TS, e.G, e.Garbage, arr[i].Late, arr[i].WM)
+		}
+	}
 	byID := map[int]et.Event{}
 	late := map[int]bool{}
 	idx := map[int]int{}
@@ -705,6 +714,16 @@ func features(c Case) []string {
 	}
 	if c.Kind == "sliding" && c.ALMs > 0 {
 		f = append(f, "sliding-late-update")
+	}
+	if c.Kind == "tumbling" && c.ALMs > 0 && c.HookSeed != 0 && c.Plan == nil && !c.Idle {
+		// a late row while the trigger goroutine is held up between extracting a window and handing it over
+		arr := et.Model(c.Events, c.OOOMs)
+		for i, e := range c.Events {
+			if e.Garbage == "" && arr[i].Late {
+				f = append(f, "perturbed-late-update")
+				break
+			}
+		}
 	}
 	return f
 }
